@@ -28,10 +28,12 @@ ASSUMPTIONS = [
 FLOORS = {
     "quick": {"roundtrips": 5000, "with-strings": 4000, "with-multiline": 200,
               "with-hostile-quoting": 500, "serialisations-into-a-chunk-list": 100,
-              "roundtrips-reparsed-by-the-parser-that-parsed-the-source": 1500},
+              "roundtrips-reparsed-by-the-parser-that-parsed-the-source": 1500,
+              "roundtrips-after-the-tree-was-read-through-its-getters": 5000},
     "thorough": {"roundtrips": 150000, "with-strings": 100000, "with-multiline": 5000,
                  "with-hostile-quoting": 10000,
-                 "roundtrips-reparsed-by-the-parser-that-parsed-the-source": 40000},
+                 "roundtrips-reparsed-by-the-parser-that-parsed-the-source": 40000,
+                 "roundtrips-after-the-tree-was-read-through-its-getters": 60000},
 }
 SHARD_TIMEOUT = {"quick": 600, "thorough": 3000}
 
@@ -71,6 +73,10 @@ def evaluate(data, same_parser=False):
     except RecursionError:
         return None, []
     info["strings"] = _has_str(nf0)
+    if same_parser or len(data) % 2:
+        # a caller inspects the tree through its public getters before printing it: reading
+        # changes nothing (nf0 above was taken before, the printout below comes after)
+        info["getter_calls"] = lab.read_through_getters(o.result)
     kind, t1, _ = guarded(lab.serialise, 200000 + 4000 * len(data), o.result)
     if kind != "ret":
         exc = t1[0] if kind == "exc" else "hang"
@@ -153,6 +159,8 @@ def check_case(label, data, info, res: Result):
     res.count("roundtrips")
     if same:
         res.count("roundtrips-reparsed-by-the-parser-that-parsed-the-source")
+    if meta.get("getter_calls"):
+        res.count("roundtrips-after-the-tree-was-read-through-its-getters")
     if meta["strings"]:
         res.count("with-strings")
     if meta["mls"]:
